@@ -95,8 +95,13 @@ def handle (st : St) (line : String) : St × Option String :=
   | ["CFG", k, v] :: _ =>
     if k == "fallThroughAlways" then ({ st with cfg := { st.cfg with fallThroughAlways := v == "1" } }, none)
     else (st, none)
+  | [head, out] =>
+    match head.head? with
+    | some "RG" => (st, some (opRegistry st head out))
+    | _ => (st, some "skip unknown-op")
   | [head, path, out] =>
     match head.head? with
+    | some "CM" => (st, some (opCompiles st head path))
     | some "GT" | some "G" => (st, some (opGet st head path out))
     | some "CP" => (st, some (opCopy st head out))
     | some "CT" => (st, some (opCopyTo st head out))
